@@ -110,6 +110,7 @@ Ltac fstep_cases H :=
   unfold ftstep in Hts; destruct (f_pc th) eqn:Epc;
   repeat match type of Hts with
          | context [match p_mutex ?g with _ => _ end] => let E := fresh "Emx" in destruct (p_mutex g) eqn:E
+         | context [if f_fail ?a then _ else _] => let E := fresh "Efl" in destruct (f_fail a) eqn:E
          | context [if kcompat ?a ?b then _ else _] => let E := fresh "Ekc" in destruct (kcompat a b) eqn:E
          end; finv_some.
 
@@ -134,7 +135,7 @@ Lemma fheld_at : forall m th p, f_pc th = p -> fheld m th = flock_pc p && mode_e
 Proof. intros. unfold fheld. rewrite H. reflexivity. Qed.
 Lemma fheld_set_pc : forall m th p, fheld m (fset_pc th p) = flock_pc p && mode_eqb (f_mode th) m.
 Proof. reflexivity. Qed.
-Lemma fheld_FTh : forall m p pr m' q td sn, fheld m (FTh p pr m' q td sn) = flock_pc p && mode_eqb m' m.
+Lemma fheld_FTh : forall m p pr m' q fl td sn, fheld m (FTh p pr m' q fl td sn) = flock_pc p && mode_eqb m' m.
 Proof. reflexivity. Qed.
 
 Lemma fstep_kernel : forall s t s', FInv s -> fstep s t = Some s' ->
@@ -225,8 +226,8 @@ Proof. intros. unfold fholds_in, fholds. rewrite H. reflexivity. Qed.
 Lemma fholds_in_set_pc : forall p m th pc,
   fholds_in p m (fset_pc th pc) = Nat.eqb (f_proc th) p && (fholds_pc pc && mode_eqb (f_mode th) m).
 Proof. reflexivity. Qed.
-Lemma fholds_in_FTh : forall p m pc pr m' q td sn,
-  fholds_in p m (FTh pc pr m' q td sn) = Nat.eqb pr p && (fholds_pc pc && mode_eqb m' m).
+Lemma fholds_in_FTh : forall p m pc pr m' q fl td sn,
+  fholds_in p m (FTh pc pr m' q fl td sn) = Nat.eqb pr p && (fholds_pc pc && mode_eqb m' m).
 Proof. reflexivity. Qed.
 
 Lemma fholds_in_fheld : forall p m th, fholds_in p m th = true -> fheld m th = true.
@@ -319,6 +320,7 @@ Proof.
   - destruct (f_todo th); split; try reflexivity; intros Hpc; discriminate Hpc.
   - pose proof (fi_nofail _ I _ _ Hth) as Hnf. rewrite Epc in Hnf. discriminate.
   - pose proof (fi_nofail _ I _ _ Hth) as Hnf. rewrite Epc in Hnf. discriminate.
+  - destruct (f_todo th); split; try reflexivity; intros Hpc; discriminate Hpc.
 Qed.
 
 Lemma FInv_step : forall s t s', FInv s -> fstep s t = Some s' -> FInv s'.
